@@ -81,7 +81,7 @@ class _OpxRange(ExcelWrapper.RangeData):
 
             # if this range corresponds to the top left of a CSE Array formula
             if (args[0] == args[1] == '1') and all(
-                    c.value and c.value.startswith(front)
+                    isinstance(c.value, str) and c.value.startswith(front)
                     for c in flatten(cells)):
                 # apply formula to the range
                 formula = '={%s}' % front[len(ARRAY_FORMULA_NAME) + 1:]
@@ -376,10 +376,16 @@ class ExcelOpxWrapperNoData(ExcelOpxWrapper):
 
     class OpxRange(_OpxRange):
         def __new__(cls, range_data):
+            formulas = range_data.formula
+            if formulas is None:
+                # range overlaps, but is not, a CSE Array Formula
+                formulas = tuple(tuple(
+                    v if isinstance(v, str) and v.startswith('=') else ''
+                    for v in row) for row in range_data.values)
             values = tuple(
                 tuple(ExcelOpxWrapperNoData.excel_value(*cell)
                       for cell in zip(row_f, row_v))
-                for row_f, row_v in zip(range_data.formula, range_data.values)
+                for row_f, row_v in zip(formulas, range_data.values)
             )
             return ExcelWrapper.RangeData.__new__(
                 cls, range_data.address, range_data.formula, values)
